@@ -14,3 +14,10 @@ CLAIMED['C20'] = dict(
   text='Held (up to the listed known finding) on every (config, packet) pair explored: 54 strata of REDIRECT/TPROXY x DNS x dual-stack x owner-group filters x include/exclude lists, thousands of configs, tens of millions of packets in thorough. Unknown rule syntax aborts a case as inconclusive, never passes silently. Exploration only: reconcile/cleanup paths, nftables backend and pre-existing rules are not driven.',
   note='Trusted: the reference netfilter interpreter (hook order, REDIRECT re-entry over lo, owner/mark/conntrack semantics) and the reference policy; packet classes on which the property is silent (proxy->pod over lo, 127.0.0.6 source, tunnel port 15008, INVALID state under drop-invalid, conflicting include+exclude of one port/gid) are unspecified and only checked for v4/v6 parity. One known finding (app TCP/53 to self over lo with DNS capture) is listed in known-findings.txt.',
 )
+
+CLAIMED['C04'] = dict(
+  category='exploration',
+  technique='runtime monitoring: executable xDS protocol model in closed loop with the real DiscoveryServer (Stream/StreamDeltas on an in-process stream shim), barrier requests make silence a decided observation; exhaustive short request sequences + PRNG long ones; panic/crash detection',
+  text='Held on every request sequence executed: all sequences up to length 2 (quick) / 3 (thorough) over the per-type alphabet (names x nonce kind x error_detail + push) for EDS, RDS, CDS, LDS, NDS on bare and conformantly warmed streams, SotW and delta, plus thousands of random mixed sequences; each stimulus classified must-respond / must-be-silent / unspecified by the model and compared with what the server did before the barrier echo; auto-ACK rounds bound the loop clause; server record compared with the last request for conformant sequences.',
+  note='Trusted: the protocol model (our reading of the property; unspecified reactions are accepted either way), the barrier ordering argument (one goroutine per connection handles requests and pushes in order), FakeDiscoveryServer wiring. Not driven: ECDS/SDS/WDS types, proxies with custom generators, real gRPC transport, concurrency between the request loop and pushes beyond the push letter.',
+)
